@@ -642,10 +642,11 @@ fn expr_stmt_to_asg_stmt(expr_stmt: synast::ExprStmt, context: &mut Context) -> 
 
         syn_expr => {
             let expr = expr_to_asg_texpr(syn_expr, context);
-            expr.map_or_else(
-                || panic!("expr::ExprStmt is None. Expression not implemented in the ASG."),
-                |ex| Some(asg::Stmt::ExprStmt(ex)),
-            )
+            match expr {
+                Some(ex) => Some(asg::Stmt::ExprStmt(ex)),
+                // The expression is not one that the AST knows. For example `(1, 2);`.
+                None => not_impl!(context, expr_stmt),
+            }
         }
     }
 }
@@ -764,8 +765,14 @@ fn expr_to_asg_texpr(
             let Some(op) = binary_op_to_asg_type(synast_op) else {
                 return not_impl_expr!(context, bin_expr);
             };
-            let left = expr_to_asg_texpr(left_syn, context).unwrap();
-            let right = expr_to_asg_texpr(right_syn, context).unwrap();
+            // An operand can be missing from the AST: the parser accepts some forms that are not
+            // OpenQASM 3 expressions, for example `()`.
+            let (Some(left), Some(right)) = (
+                expr_to_asg_texpr(left_syn, context),
+                expr_to_asg_texpr(right_syn, context),
+            ) else {
+                return not_impl_expr!(context, bin_expr);
+            };
             // There are no binary ops that accept quantum operands.
             if left.get_type().is_quantum() {
                 // Generate the ast node again, for the borrow checker. But we are already
@@ -908,6 +915,10 @@ fn gate_call_expr_to_asg_stmt(
     modifiers: Vec<asg::GateModifier>,
     context: &mut Context,
 ) -> Option<asg::Stmt> {
+    if gate_call_expr.identifier().is_none() {
+        // The callee is not a name. For example `U(1)(2) q;`.
+        return not_impl!(context, gate_call_expr);
+    }
     let gate_operands: Vec<_> = qubit_list_to_asg_texpr(gate_call_expr.qubit_list(), context);
     let param_list = gate_call_expr
         .arg_list()
